@@ -21,7 +21,7 @@ def rand_bytes(rng, n):
 def make_pool(rng, size=None, style=None):
     """A pool of keys with heavy prefix sharing, nibble-aligned and unaligned."""
     size = size or rng.choice(deep([3, 4, 5, 6, 8, 10, 12, 16, 24, 40], [3, 4, 6, 8, 12, 16, 24, 40, 64, 96]))
-    style = style or rng.choice(["short", "short", "short", "mixed", "mixed", "fixed32", "fixed20", "deep"])
+    style = style or rng.choice(["short", "short", "short", "mixed", "mixed", "fixed32", "fixed20", "deep", "long"])
     alpha = rng.choice(ALPHABETS)
 
     def byte():
@@ -35,8 +35,9 @@ def make_pool(rng, size=None, style=None):
             seen.add(k)
             pool.append(k)
 
-    if style in ("fixed32", "fixed20"):
-        n = 32 if style == "fixed32" else 20
+    if style in ("fixed32", "fixed20", "long"):
+        # "long": keys of 57..70 bytes, whose hex-prefix paths need RLP's long-string form
+        n = 32 if style == "fixed32" else (20 if style == "fixed20" else rng.choice([57, 60, 64, 70]))
         base = bytes(byte() for _ in range(n))
         add(base)
         tries = 0
@@ -98,7 +99,7 @@ def make_values(rng, n=None):
         elif r < 0.9:
             ln = rng.randint(4, 23)
         else:
-            ln = rng.choice([35, 40, 55, 56, 64, 80])
+            ln = rng.choice([35, 40, 55, 56, 64, 80, 255, 256, 300])
         if rng.random() < 0.5:
             v = bytes([rng.choice([0x00, 0x01, 0x7F, 0x80, 0x76, 0xFF])]) * ln
         else:
